@@ -120,6 +120,7 @@ func (s C10) Events(env world.Env, mm mc.Model) []string {
 		if s.Full { // q: a well-formed post whose viewer map gives the owner's id a key full of JSON metacharacters
 			for _, a := range accts {
 				add("Post:%s:root:%s:q:c1", x, a)
+				add("Post:%s:root:%s:own:c2", x, a) // Account = owner address of the root instead of the hashed account
 			}
 		}
 		add("Provision:%s", x)
@@ -275,6 +276,8 @@ func (s C10) Apply(env world.Env, mm mc.Model, ev string) mc.Step {
 		switch form {
 		case "ok", "q":
 			return h
+		case "own": // the owner address of O's root, i.e. the form the viewer/editor messages take as FileOwner
+			return ftOwner(c10Path("root"), h)
 		case "bech":
 			return w.A(a).Bech
 		case "slash":
